@@ -16,7 +16,9 @@ PROP = "C19"
 
 
 def sites(n, invalid=False):
-    s = [(1, 10 + i, 2 + i) for i in range(n)]
+    # call sites that share components on purpose: the first two differ ONLY in the callee (one call statement that
+    # dispatches to two callees), the third shares caller and callee with the first and differs only in the statement
+    s = [(1, 10, 2), (1, 10, 3), (1, 11, 2), (2, 20, 4)][:n]
     if invalid:
         s.append((1, -1, 9))
     return s
